@@ -160,11 +160,11 @@ def child_main(world, proc, args, stdin, stdout):
         return world.execmodel_for(proc, backend)
 
     def sim_init_popen_io(execmodel):
-        if bare:
-            P2 = ns.get("Popen2IO")
-            if P2 is None:
+        # exec bootstrap: the shipped source defined its own Popen2IO in this namespace
+        P2 = ns.get("Popen2IO")
+        if P2 is None:
+            if bare:
                 raise NameError("Popen2IO")
-        else:
             P2 = world.gb.Popen2IO
         io = P2(stdout, stdin, execmodel)
         proc.info["io_ready"] = True
@@ -179,6 +179,8 @@ def child_main(world, proc, args, stdin, stdout):
             return fsys
         if level == 0 and name == "__main__":
             return main_mod
+        if level == 0 and name == "vsim_bridge":
+            return sys.modules["vsim_bridge"]  # harness back door for generated remote programs
         if bare:
             if level != 0 or root == "execnet" or root not in sys.stdlib_module_names:
                 world.sched.probe("bare-import-denied")
@@ -206,8 +208,9 @@ def child_main(world, proc, args, stdin, stdout):
             codes = [source]
         for co in codes:
             _real_exec(co, ns)
-            if bare:
-                ns.update(overrides)
+            # the two functions that touch real fds / real threads stay substituted even when the
+            # shipped source (exec bootstrap) has just defined its own versions
+            ns.update(overrides)
 
     _real_exec = builtins.exec
     bdict = dict(builtins.__dict__)
